@@ -240,8 +240,27 @@ int inflate(z_streamp strm, int flush)
 // Allocation cap: a single request above the cap fails with std::bad_alloc, a
 // legal outcome of any allocation, instead of ASan's fatal
 // allocation-size-too-big report (which the properties do not forbid).
+// Allocation failpoint: when armed with k > 0, the k-th C++ allocation from now on fails with std::bad_alloc (what a
+// process under memory pressure sees); it fires once and disarms itself.
+static long long g_alloc_countdown = 0;
+static bool g_alloc_fired = false;
+void shim_arm_alloc_fault(long long k)
+{
+    g_alloc_countdown = k;
+    g_alloc_fired = false;
+}
+bool shim_disarm_alloc_fault()
+{
+    g_alloc_countdown = 0;
+    return g_alloc_fired;
+}
 static void* capped_alloc(std::size_t n)
 {
+    if (g_alloc_countdown > 0 && !t_shim_bypass && --g_alloc_countdown == 0)
+    {
+        g_alloc_fired = true;
+        throw std::bad_alloc();
+    }
     if (n > g_alloc_cap)
     {
         g_shim.big_alloc = true;
